@@ -212,6 +212,26 @@ pub trait WriteableGraph {
     fn is_edge_deleted_in_txn(&self, _edge: EdgeKey) -> bool {
         false
     }
+
+    /// True when `external_id` already names a node, committed or created earlier in the
+    /// same transaction.
+    fn external_id_in_use(&self, _external_id: ExternalId) -> bool {
+        false
+    }
+}
+
+/// Statements derive the external id of a new node from the clock plus a per-statement
+/// counter, which repeats when the clock stalls, steps back, or two statements run within the
+/// same few nanoseconds. Move on to the next id that no node has.
+pub(crate) fn first_free_external_id(
+    txn: &dyn WriteableGraph,
+    candidate: ExternalId,
+) -> ExternalId {
+    let mut id = candidate;
+    while txn.external_id_in_use(id) {
+        id = id.wrapping_add(1);
+    }
+    id
 }
 
 pub use nervusdb_storage::property::PropertyValue;
